@@ -113,6 +113,8 @@ def xproc(res, tier):
             env = {s: (u if k == 0 else ids[(j + 7 * k) % len(ids)]) for k, s in enumerate(split)}
             if "seg" in env:
                 env["seg"] = "x" if j % 2 else 2
+                if ast[2] == "t":
+                    env["seg"] = (("x", "why", "zed", "w"), ("x", "w", "why", "zed"), ("w", "x"), ("zed",))[j % 4]
             exp = oracle.expected(ast, env)
             want = repr(("ok", exp[1][1][sorted(exp[2])[0]][0])) if exp[0] == "group" and len(exp[2]) == 1 else None
             if want is not None and rows[i] != want:
